@@ -296,7 +296,7 @@ def _raise_type(f: Fn, n) -> str | None:
 
 def _k4(run: Run, w: World) -> None:
     run.rule("K4", "assert_equivalent_dimension: every non-escaping normal exit is dominated by the number-vs-dimensional test (TypeError) and the equivalent_dims test (UnitsError < ValueError), angle erased on both operands")
-    f = Fn(w, DIMS, "assert_equivalent_dimension")
+    f = Fn(w, DIMS, "assert_equivalent_dimension", inline=True)
     run.require({"arg", "expected_unit"} <= set(f.params), "assert_equivalent_dimension parameters changed")
     tests = [n for n in f.cfg.stmt_nodes() if n.kind == "test" and isinstance(n.ast, ast.If)]
 
@@ -493,7 +493,7 @@ def _k5(run: Run, w: World) -> None:
 
 def _k6(run: Run, w: World) -> None:
     run.rule("K6", "the scale factor of the argument is used only by is_number, is_any_dimension and the error text: the verdict cannot depend on magnitude")
-    f = Fn(w, DIMS, "assert_equivalent_dimension")
+    f = Fn(w, DIMS, "assert_equivalent_dimension", inline=True)
     factors = set()
     for n, c in f.calls(COLLECT):
         st = n.ast
